@@ -27,6 +27,11 @@ pub broadcast axiom fn ax_display_commanderror(e: CommandError, f: &std::fmt::Fo
 //@assumed command.rs Command::parse_from_message sha=e25ce81201ea units=dispatch
 //@assumed command.rs Command::validate sha=360ec9b03856 units=dispatch
 //@assumed utils.rs validate_channelmodes sha=0c59764eb236 units=dispatch
+//@assumed reply.rs fmt::Display+for+Reply::fmt sha=46c83b6ae681 units=dispatch
+//@assumed state/mod.rs MainState::feed_msg sha=e6c54daa707d units=dispatch
+//@assumed utils.rs validate_usermodes sha=6ae352202f19 units=dispatch
+//@assumed utils.rs validate_prefixed_channel sha=7f5a9269a5ec units=dispatch
+//@assumed utils.rs validate_source sha=c0e8c5a0359e units=dispatch
 // what the (unverified) tokenizer and per-verb parser return: uninterpreted, so that the dispatcher's reaction can be specified
 pub uninterp spec fn tokenize<'a>(input: Seq<char>) -> Result<Message<'a>, MessageError>;
 pub uninterp spec fn parse_cmd<'a>(m: Message<'a>) -> Result<Command<'a>, CommandError>;
